@@ -9,6 +9,8 @@ from ..rules import decide_states, pure_params, fmt_trace
 ID = "C19"
 ANCHORS = 'seqlet._recursive_seqlets,seqlet.recursive_seqlets,seqlet.tfmodisco_seqlets,seqlet._iterative_extract_seqlets'.split(",")
 MIN_INSTANCES = 12
+# rule families whose findings in this module are derived by an engine (not by comparing spellings): exempt from the rewrite gate
+SEMANTIC_RULES = {"R-PURE", "R-GUARD"}
 EXPLANATION = (
     "R-GUARD (cumulative-sum idiom): every read X_csum[i, e] in seqlet._recursive_seqlets is proved to satisfy 0 <= e <= l-1 "
     "from the loop ranges and guards (no negative index can wrap to the last cumulative sum); the reported attribution is "
